@@ -166,7 +166,12 @@ func buildToken(c *tokCase, iss *principal, w *world, pick int) (b *built, err e
 	cmd := command.Command([]string{"/crud/read", "/", "/crud//read", "/é/日本", "/a b", "/crud/read/" + strings.Repeat("x", 300)}[pick%6])
 	switch c.Type {
 	case "dlg":
-		pol, _ := policy.FromDagJson(`[["==", ".x", 1], ["any", ".l", ["like", ".", "a*"]]]`)
+		// the policy is a field like the others: every statement kind and every selector form (optional fields,
+		// indexes and slices included) in turn
+		pol, perr := policy.FromDagJson(rtPolicies[pick%len(rtPolicies)])
+		if perr != nil {
+			return nil, fmt.Errorf("round-trip policy %d: %w", pick%len(rtPolicies), perr)
+		}
 		var opts []delegation.Option
 		if has(c.Opts, "sub") || c.Spec.F == "sub" {
 			opts = append(opts, delegation.WithSubject(subDID))
@@ -417,10 +422,53 @@ func tokenReplay(prop string) replayFn {
 					fail("every field preserved", r.name+": "+why, "C07: seal then unseal changed the token")
 					break
 				}
+				// a policy is what it accepts: the unsealed delegation's policy decides every probe as the original does
+				if d0, ok := b.tok.(*delegation.Token); ok {
+					if d1, ok := r.tok.(*delegation.Token); ok {
+						if why := policyBehaviourDiffers(d0.Policy(), d1.Policy()); why != "" {
+							fail("every field preserved", r.name+": "+why, "C07: seal then unseal changed what the policy accepts")
+							break
+						}
+					}
+				}
 			}
 		}
 		return nil
 	}
+}
+
+var rtPolicies = []string{
+	`[["==", ".x", 1], ["any", ".l", ["like", ".", "a*"]]]`,
+	`[["==", ".to?[0:2]?", ["a", "b"]], ["like", ".s?[1:]?", "e*"], ["all", ".l?[1:]?", ["like", ".", "*"]]]`,
+	`[["not", ["==", ".m?.k?", 2]], ["or", [[">", ".x?", 0], ["<=", ".y?", -1]]], ["and", [[">=", ".x?", 0], ["<", ".x?", 10]]]]`,
+	`[["any", ".to?[]?", ["==", ".", "c"]], ["==", ".l?[-1]?", "b"], ["==", ".m?[\"k\"]?", 1], ["not", ["==", ".to?[:1]?", ["z"]]]]`,
+	`[]`,
+}
+
+var rtProbes []ipld.Node
+
+func init() {
+	for _, js := range []string{`{}`, `{"to": ["a", "b", "c"], "x": 1, "l": ["ab", "b"], "s": "hello", "m": {"k": 1}}`, `{"to": "text", "x": 0}`, `{"to": [], "l": [], "s": ""}`,
+		`{"x": 5, "y": -2, "m": {"k": 2}}`, `{"to": ["z"], "l": ["b"], "s": "ee", "m": {}}`, `{"to": ["a", "b"], "x": 10}`, `{"l": ["a", "ab", "abc"], "x": 1}`, `{"to": null, "s": null}`} {
+		n, err := ipld.Decode([]byte(js), dagjson.Decode)
+		if err != nil {
+			panic(err)
+		}
+		rtProbes = append(rtProbes, n)
+	}
+}
+
+func policyBehaviourDiffers(p0, p1 policy.Policy) string {
+	for i, d := range rtProbes {
+		m0, _ := p0.Match(d)
+		m1, _ := p1.Match(d)
+		q0, _ := p0.PartialMatch(d)
+		q1, _ := p1.PartialMatch(d)
+		if m0 != m1 || q0 != q1 {
+			return fmt.Sprintf("the policy decides probe %d differently (match %v/%v, partial %v/%v)", i, m0, m1, q0, q1)
+		}
+	}
+	return ""
 }
 
 func init() {
@@ -472,6 +520,13 @@ func init() {
 		ps = append(ps, probe{ty: "float32", v: "typemax", val: float32(math.MaxFloat32), wantF: float64(float32(math.MaxFloat32))})
 		ps = append(ps, probe{ty: "float64", v: "typemax", val: math.MaxFloat64, wantF: math.MaxFloat64})
 		ps = append(ps, probe{ty: "float64", v: "frac", val: 0.1, wantF: 0.1})
+		// the same boundary integers handed over as IPLD nodes (the documented alternative to Go values)
+		for _, v := range []struct {
+			name string
+			n    int64
+		}{{"zero", 0}, {"max53", 1<<53 - 1}, {"max53plus1", 1 << 53}, {"min53", -(1<<53 - 1)}, {"min53minus1", -(1 << 53)}, {"2^60", 1 << 60}, {"typemax", math.MaxInt64}, {"typemin", math.MinInt64}} {
+			addI("ipld.Node", v.name, basicnode.NewInt(v.n), v.n)
+		}
 		// nested: the same integers inside a slice and a map
 		nested := []probe{}
 		for _, p := range ps {
@@ -524,9 +579,18 @@ func init() {
 			return f()
 		}
 		for _, p := range ps {
+			// a rejected value leaves NOTHING behind: the collection is as before, and goes on working
+			leftover := ""
 			n1, e1 := safe(func() (ipld.Node, error) {
 				a := args.New()
 				if err := a.Add("k", p.val); err != nil {
+					if _, e := a.GetNode("k"); e == nil || len(a.Keys) != 0 || len(a.Values) != 0 {
+						leftover = "args.Add"
+					} else if e2 := a.Add("k2", 1); e2 != nil {
+						leftover = "args.Add"
+					} else if node, e3 := a.ToIPLD(); e3 != nil || node.Length() != 1 {
+						leftover = "args.Add"
+					}
 					return nil, err
 				}
 				return a.GetNode("k")
@@ -534,6 +598,11 @@ func init() {
 			n2, e2 := safe(func() (ipld.Node, error) {
 				m := meta.NewMeta()
 				if err := m.Add("k", p.val); err != nil {
+					if _, e := m.GetNode("k"); e == nil || len(m.Keys) != 0 || len(m.Values) != 0 {
+						leftover = "meta.Add"
+					} else if e2 := m.Add("k2", 1); e2 != nil {
+						leftover = "meta.Add"
+					}
 					return nil, err
 				}
 				return m.GetNode("k")
@@ -555,7 +624,11 @@ func init() {
 				if r.e != nil && strings.HasPrefix(r.e.Error(), "panic") {
 					pn = true
 				}
-				emit(map[string]any{"ev": "Add", "api": r.api, "ty": p.ty, "v": p.v, "outcome": outcome(p, r.n, r.e), "panic": pn})
+				oc := outcome(p, r.n, r.e)
+				if oc == "rejected" && leftover == r.api {
+					oc = "altered" // reported as rejected, stored all the same (or the collection is unusable afterwards)
+				}
+				emit(map[string]any{"ev": "Add", "api": r.api, "ty": p.ty, "v": p.v, "outcome": oc, "panic": pn})
 			}
 		}
 		return nil
